@@ -29,12 +29,6 @@ Qed.
 Lemma dec_digits n : forallb is_digit (dec n) = true.
 Proof. apply chars_all_digits. Qed.
 
-Lemma take_line_id s : forallb (fun c => negb (c =? 10)) s = true -> take_line s = s.
-Proof.
-  induction s as [|c t IH]; cbn; [reflexivity|]. intros H. apply andb_true_iff in H as [H1 H2].
-  destruct (c =? 10); [discriminate|]. rewrite (IH H2). reflexivity.
-Qed.
-
 Lemma py_int_none s c : In c s -> int_char_ok c = false -> py_int s = None.
 Proof.
   intros Hin Hc. unfold py_int.
@@ -81,15 +75,6 @@ Proof.
     destruct Hin as [<-|Hin]; [auto|]. eapply IH; eauto.
 Qed.
 
-Lemma render_take_line tsec ts : toks_ok tsec ts -> take_line (render ts) = render ts.
-Proof.
-  intros Hok. apply take_line_id, forallb_forall. intros c Hc.
-  destruct (render_chars tsec ts c Hok Hc) as [H|[H|H]].
-  - lia.
-  - apply desig_cases in H. unfold cW, cD, cH, cM, cS in H. lia.
-  - unfold cT in H. lia.
-Qed.
-
 Lemma render_py_int tsec ts : toks_ok tsec ts -> py_int (render ts) = None.
 Proof.
   destruct ts as [|[[tp v] w] r]; intros Hok; [reflexivity|].
@@ -100,11 +85,11 @@ Proof.
 Qed.
 
 Lemma dur_step f tp v w rest tsec acc :
-  0 <= v -> desig w = true -> (w = cM -> (tp || tsec) = true) -> take_line rest = rest -> py_int rest = None ->
+  0 <= v -> desig w = true -> (w = cM -> (tp || tsec) = true) -> py_int rest = None ->
   dur_loop (S f) ((if tp then [cT] else []) ++ dec v ++ [w] ++ rest) tsec acc
   = dur_loop f rest (tp || tsec) (acc + mult w * v).
 Proof.
-  intros Hv Hw Hm Htl Hpi.
+  intros Hv Hw Hm Hpi.
   pose proof (dec_nonempty v) as Hne. pose proof (dec_digits v) as Hd.
   assert (Hwd : is_digit w = false).
   { apply desig_cases in Hw. unfold is_digit, cW, cD, cH, cM, cS in *. lia. }
@@ -113,7 +98,7 @@ Proof.
      (let (digits, r) := span_digits s1 in
       match digits, r with
       | _ :: _, what :: rest0 =>
-          let rest' := take_line rest0 in
+          let rest' := rest0 in
           let num := int_of_digits digits in
           let step (add : Z) :=
             let acc' := acc + add in
@@ -130,7 +115,7 @@ Proof.
       | _, _ => Raise ValueError
       end) = dur_loop f rest ts (acc + mult w * v)).
   { intros ts s1 -> Hts. rewrite Hspan. destruct (dec v) as [|d0 dt] eqn:Ed; [congruence|]. rewrite <- Ed.
-    cbv zeta. rewrite Htl, Hpi, (int_of_dec v Hv).
+    cbv zeta. rewrite Hpi, (int_of_dec v Hv).
     apply desig_cases in Hw. unfold mult.
     destruct Hw as [-> | [-> | [-> | [-> | ->]]]]; cbn - [Z.mul Z.add dur_loop]; try rewrite (Hts eq_refl); f_equal; lia. }
   destruct tp; cbn [app orb].
@@ -152,7 +137,6 @@ Proof.
     destruct Hok as (Hv & Hw & Hm & Hr). cbn [render].
     rewrite dur_step; auto.
     + rewrite IH by (auto; lia). cbn [total]. f_equal. lia.
-    + eapply render_take_line; exact Hr.
     + eapply render_py_int; exact Hr.
 Qed.
 
